@@ -35,6 +35,8 @@ SCOPE = {"quick": "701 datasets (n<=3, m<=2) + 150 sampled (n<=5, m<=4): frames 
          "thorough": "701 datasets x 2 to 3 schemes + 2000 sampled (n<=6, m<=5): frames; all 819 sequences of length <= 3 "
                      "over 9 operations (sampled datasets: length <= 2)"}
 CHUNK = 2
+# every 6th case is run a second time with every algorithm object used before on related inputs (bounded/algs.py: warm)
+WARM_EVERY = {"quick": 6, "thorough": 6}
 TIMEOUT = 900
 
 SEQ_OPS = ["alg:BioConsert", "alg:BioCo", "alg:Borda", "alg:Copeland", "alg:PickAPerm", "alg:ParCons(bound=0,aux=BioCo)",
@@ -286,6 +288,20 @@ def check_frames(case, rec):
             rec.evals += 1
             if res1 != res2:
                 rec.add("C15.twice", name, dict(ctx, first=str(res1)[:400], second=str(res2)[:400]))
+            if algs.is_warm():
+                # the object used so far has a past (warm-up calls on related inputs): a fresh object, called plainly on
+                # the same inputs, must give the same result
+                try:
+                    random.seed(5)
+                    with algs.cold():
+                        res3 = cons_result(run_alg(name, algs.make(name), d, sc))
+                except Exception as e:                      # noqa: BLE001
+                    passthrough(e)
+                    res3 = ("raises", type(e).__name__, str(e)[:120])
+                rec.evals += 1
+                if res1 != res3:
+                    rec.add("C15.twice", name + ": object used before vs fresh object",
+                            dict(ctx, used_object=str(res1)[:400], fresh_object=str(res3)[:400]))
         # reads and partitions
         d, sc = state["d"], state["sc"]
         su = sorted(d.universe, key=tv)
